@@ -339,20 +339,116 @@ fn scene_unit<F: Backend + RenderHints>(cx: &mut Cx, tier: Tier, si: usize, jit_
     }
 }
 
+/// NaN payloads: the image format stores either a distance sample or a NaN-boxed
+/// "filled tile" record, so a NaN *computed by the shape* must never be read back as
+/// such a record.  The only way an arbitrary NaN bit pattern enters an evaluation
+/// is through a bound variable; the alphabet is every NaN whose mantissa is an
+/// 8-bit window (any of the 16 offsets, any of the 255 non-zero values) with the
+/// quiet bit set or clear, bit 0 set or clear and either sign.  Such a pixel is
+/// not negative: it must be reported outside, and in pixel-perfect mode it must
+/// carry a NaN value.
+fn nan_payload_unit<F: Backend + RenderHints>(cx: &mut Cx, _tier: Tier) {
+    let progs: Vec<(&'static str, Scene)> = {
+        let mk = |name: &'static str, f: &dyn Fn(&mut crate::scene::PB) -> usize| {
+            let mut b = crate::scene::PB::default();
+            let r = f(&mut b);
+            Scene { name, prog: b.done(r), free: Some(0.0) }
+        };
+        vec![
+            ("the free variable itself", mk("v", &|b| b.var(5))),
+            ("x + free variable", mk("x + v", &|b| {
+                let x = b.x();
+                let v = b.var(5);
+                b.add(x, v)
+            })),
+            ("min(x + free variable, 2)", mk("min(x + v, 2)", &|b| {
+                let x = b.x();
+                let v = b.var(5);
+                let s = b.add(x, v);
+                let c = b.c(2.0);
+                b.min(s, c)
+            })),
+        ]
+    };
+    let mut sub = 0u64;
+    for (pname, s) in &progs {
+        let Some(mut b) = build::<F>(s) else { continue };
+        for sign in [0u32, 1] {
+            for quiet in [1u32, 0] {
+                for off in 0..16u32 {
+                    for val in 1..256u32 {
+                        for low in [0u32, 1] {
+                            let bits = (sign << 31) | 0x7F80_0000 | (quiet << 22) | ((val << off) & 0x007F_FFFF) | low;
+                            let nan = f32::from_bits(bits);
+                            if !nan.is_nan() {
+                                continue;
+                            }
+                            let sid = sub;
+                            sub += 1;
+                            if !cx.case(sid) {
+                                continue;
+                            }
+                            cx.add("cases", 1);
+                            cx.add("nontrivial", 1);
+                            cx.add("nan_payload_renders", 1);
+                            if let Var::V(i) = var_by_index(5) {
+                                b.vars.insert(i, nan);
+                            }
+                            for pp in [false, true] {
+                                let cfg = RenderConfig { image_size: ImageSize::new(3, 2), world_to_model: Matrix3::identity(), pixel_perfect: pp, z: 0.0 };
+                                let ecfg = EvalConfig { tile_sizes: Some(TileSizes::new(&[4, 2]).unwrap()), threads: None, cancel: Default::default() };
+                                cx.add("evals", 1);
+                                let desc = || json!({"backend": F::NAME, "shape": pname, "free variable bits": format!("{bits:#010x}"), "size": [3, 2], "tiles": [4, 2], "pixel_perfect": pp});
+                                let img = match guard(|| render(b.shape.bind(&b.vars).unwrap(), &cfg, &ecfg)) {
+                                    Ok(Some(i)) => i,
+                                    Ok(None) => {
+                                        cx.violation(format!("{} render returned None without cancellation", F::NAME), desc(), "None");
+                                        continue;
+                                    }
+                                    Err(e) => {
+                                        cx.crash(format!("{} render crash {}", F::NAME, panic_site(&e)), desc(), e);
+                                        continue;
+                                    }
+                                };
+                                for j in 0..2usize {
+                                    for i in 0..3usize {
+                                        let px = img[(j, i)];
+                                        let ok = !px.inside() && (!pp || matches!(px.unpack(), DistancePixel::Value(g) if g.is_nan()));
+                                        if !ok {
+                                            cx.violation(
+                                                format!("{} pixel at which the shape is NaN is not reported as such", F::NAME),
+                                                desc(),
+                                                format!("pixel ({i},{j}): the shape's value is the NaN {bits:#010x} (not negative); the image carries {:?}, inside() = {}", px.unpack(), px.inside()),
+                                            );
+                                        }
+                                    }
+                                }
+                            }
+                        }
+                    }
+                }
+            }
+        }
+    }
+}
+
 impl Check for C06 {
     fn id(&self) -> &'static str {
         "C06"
     }
     fn units(&self, _tier: Tier) -> usize {
-        scene::scenes_2d().len() * 2
+        scene::scenes_2d().len() * 2 + 2
     }
     fn unit_label(&self, _tier: Tier, unit: usize) -> String {
         let n = scene::scenes_2d().len();
+        if unit >= 2 * n {
+            return format!("{} NaN payloads through a bound variable", if unit == 2 * n { "vm" } else { "jit" });
+        }
         format!("{} {}", if unit < n { "vm" } else { "jit" }, scene::scenes_2d()[unit % n].name)
     }
     fn meta(&self, tier: Tier) -> Meta {
         Meta {
-            rule: "case = one render; full Cartesian product of 13 shapes (circle, rectangle, half-plane, union / intersection / difference, ring, a min-chain of 4 circles that simplifies differently per tile, constants +1 and -1, x*y, a z-dependent sphere slice, a shape with a free variable) x image sizes (w,h) x tile-size chains x 7 view transforms (identity, scale, translation, 90-degree rotation, anisotropic + shear, and at z = 0 the homogeneous bottom rows (0,0,2) and (1/8,-1/16,1)) x (z, pixel-perfect, threads) in {(0,off,none),(0.25,off,pool),(0,on,none),(0.25,on,pool)} x backend {VM, JIT}; plus every shape with the backend's DEFAULT tile sizes on images larger than one root tile (130x70, 33x257; thorough also 129x129, 256x128, 200x131) with no pool / stand-in pool / ThreadPool::Global; oracle: for every pixel (i,j) the f64 value of the program at cfg.mat()*(i,j,1): decidable pixels (|v| > 2e-5*(1+largest intermediate)) must satisfy inside() <=> v < 0; in pixel-perfect mode every pixel must be a Value within 2e-4*(1+magnitude) of v; image dimensions must equal the request; non-trivial = every render".into(),
+            rule: "case = one render; full Cartesian product of 13 shapes (circle, rectangle, half-plane, union / intersection / difference, ring, a min-chain of 4 circles that simplifies differently per tile, constants +1 and -1, x*y, a z-dependent sphere slice, a shape with a free variable) x image sizes (w,h) x tile-size chains x 7 view transforms (identity, scale, translation, 90-degree rotation, anisotropic + shear, and at z = 0 the homogeneous bottom rows (0,0,2) and (1/8,-1/16,1)) x (z, pixel-perfect, threads) in {(0,off,none),(0.25,off,pool),(0,on,none),(0.25,on,pool)} x backend {VM, JIT}; plus every shape with the backend's DEFAULT tile sizes on images larger than one root tile (130x70, 33x257; thorough also 129x129, 256x128, 200x131) with no pool / stand-in pool / ThreadPool::Global; oracle: for every pixel (i,j) the f64 value of the program at cfg.mat()*(i,j,1): decidable pixels (|v| > 2e-5*(1+largest intermediate)) must satisfy inside() <=> v < 0; in pixel-perfect mode every pixel must be a Value within 2e-4*(1+magnitude) of v; image dimensions must equal the request; plus (round 10) NaN payloads: 3 shapes passing a bound variable through x every NaN bit pattern whose mantissa is an 8-bit window at any offset (quiet bit set / clear, bit 0 set / clear, either sign: 32 640 patterns) x pixel-perfect on / off x backend - every pixel must be outside and, in pixel-perfect mode, carry a NaN value (the image format NaN-boxes fill records); non-trivial = every render".into(),
             bounds: match tier {
                 Tier::Quick => "sizes {1,3,4,5,8,9,17}^2, tile chains [4],[8,4],[8,2],[16,4]; JIT on every other size pair".into(),
                 Tier::Thorough => "sizes {1,2,3,4,5,7,8,9,15,16,17,20,33}^2, all 15 valid chains over {16,8,4,2}".into(),
@@ -362,7 +458,7 @@ impl Check for C06 {
                 "render crashes are deferred to C11".into(),
             ],
             crash_policy: CrashPolicy::Deferred,
-            vacuity: vec![("pixels_checked", 100000), ("default_tile_size_renders", 100)],
+            vacuity: vec![("pixels_checked", 100000), ("default_tile_size_renders", 100), ("nan_payload_renders", 10000)],
             transitions_counter: "evals",
             nontrivial_counter: "nontrivial",
             exhaustive: true,
@@ -370,7 +466,11 @@ impl Check for C06 {
     }
     fn run_unit(&self, tier: Tier, unit: usize, cx: &mut Cx) {
         let n = scene::scenes_2d().len();
-        if unit < n {
+        if unit == 2 * n {
+            nan_payload_unit::<VmFunction>(cx, tier);
+        } else if unit == 2 * n + 1 {
+            nan_payload_unit::<JitFunction>(cx, tier);
+        } else if unit < n {
             scene_unit::<VmFunction>(cx, tier, unit, false);
         } else {
             scene_unit::<JitFunction>(cx, tier, unit - n, true);
